@@ -379,7 +379,8 @@ theorem n_classes (n : Nat) (h8 : n ≤ 8) :
     obtain ⟨rfl, hμ⟩ := hG
     exact hmin μ t hμ ht hrel
 
-/-- non-vacuity -/
-example : npnCanonization 3 #[0xe8#64] = some (#[0x17#64], #[1, 0, 2], 7) := by decide +kernel
+/-- non-vacuity (only the representative is stated: which certificate is returned depends on the
+    walk, and another valid table in /repo must not break this file) -/
+example : (npnCanonization 3 #[0xe8#64]).map (·.1) = some #[0x17#64] := by decide +kernel
 
 end VoluteModel.Props.C04
